@@ -64,8 +64,7 @@ def specStep (s : SpecSt) (ws : List String) : SpecSt × String :=
     | "flush" :: _ => ({ s0 with queued := 0 }, "-")
     | ["install", _, _] =>
       -- "nosnapshot": the leader has not compacted yet, nothing to install (not a failure of the node)
-      -- "notbehind": the joiner's log already extends beyond the leader's snapshot (outside the property's quantifier)
-      (s0, if ans == ["install", "ok"] || ans == ["install", "nosnapshot"] || ans == ["install", "notbehind"] then "spec ok" else "spec FAIL the snapshot cannot be installed")
+      (s0, if ans == ["install", "ok"] || ans == ["install", "nosnapshot"] then "spec ok" else "spec FAIL the snapshot cannot be installed")
     | ["catchup", _] => (s0, if ans == ["catchup", "ok"] then "spec ok" else "spec FAIL the entries after the snapshot are not accepted")
     | ["dumpn"] =>
       -- the late joiner after installation (+ restart): the served state without the log bookkeeping
